@@ -238,16 +238,20 @@ structure Live where
 deriving Repr, DecidableEq
 
 /-- Reference state: the map `(peer, ns) ⇀ (id, ttl, deadline)` of current registrations, the clock,
-and the ids handed out along the chain that ends in the most recently issued cookie. -/
+the ids handed out along the chain that ends in the most recently issued cookie, and the ids
+delivered along the chain of every cookie seen issued. -/
 structure Ref where
   live : List (Key × Live)
   now : Nat
   nextId : Nat
   nextCookie : Nat
   chain : Option (Cookie × List Nat)
+  /-- for every cookie seen ISSUED: the ids delivered along its chain, up to and including the
+  response that issued it -/
+  delivered : List (Cookie × List Nat)
 deriving Repr, DecidableEq
 
-def Ref.init : Ref := ⟨[], 0, 0, 0, none⟩
+def Ref.init : Ref := ⟨[], 0, 0, 0, none, []⟩
 
 def liveEntry (e : Key × Live) : Nat × Reg := (e.2.id, ⟨e.1.1, e.1.2, e.2.ttl⟩)
 
@@ -265,6 +269,10 @@ def chainPrev (chain : Option (Cookie × List Nat)) (cookie : Option Cookie) : L
   match chain, cookie with
   | some (ck, seen), some ck' => if ck = ck' then seen else []
   | _, _ => []
+
+/-- the ids already delivered along the chain of the presented cookie (any cookie seen issued) -/
+def deliveredPrev (delivered : List (Cookie × List Nat)) (cookie : Option Cookie) : List Nat :=
+  (cookie.bind fun ck => lookup ck delivered).getD []
 
 /-- One monitor step: given the op and the implementation's answer, the new reference state and the
 verdict (`"ok"` or `"FAIL:<clause>"`). -/
@@ -295,13 +303,18 @@ def specStep (c : Cfg) (r : Ref) (o : Op) (out : Out) : Ref × String :=
   | .disc q cookie _ _, .discOk entries cns =>
     let ids := entries.map (·.1)
     let prev : List Nat := chainPrev r.chain cookie
-    let r' := { r with chain := some ((r.nextCookie, q), prev ++ ids), nextCookie := r.nextCookie + 1 }
+    let prevAll : List Nat := deliveredPrev r.delivered cookie
+    let r' := { r with chain := some ((r.nextCookie, q), prev ++ ids), nextCookie := r.nextCookie + 1,
+                       delivered := r.delivered ++ [((r.nextCookie, q), prevAll ++ ids)] }
     (r',
       if cookieMismatch q cookie then "FAIL:cookie_ns"
       else if cns ≠ q then "FAIL:cookie_ns"
       else if !entries.all (entryLive r q) then "FAIL:discover_live_only"
       else if !ids.Nodup then "FAIL:cookie_once"
       else if decide (c.cookieCap ≥ 1) && ids.any (prev.contains ·) then "FAIL:cookie_once"
+      -- any earlier cookie, as long as no eviction can have happened yet: at most `max_cookies`
+      -- cookies have been issued so far, so every issued cookie is still in the cache
+      else if decide (r.nextCookie ≤ c.cookieCap) && ids.any (prevAll.contains ·) then "FAIL:cookie_once_replayed"
       else "ok")
   | .adv d, .expired entries =>
     let t := r.now + d
